@@ -1158,7 +1158,12 @@ class Interp:
         if isinstance(f, FuncVal):
             return self.call_function(f, args, kwargs)
         if isinstance(f, Builtin):
-            return f.fn(self, list(args), kwargs)
+            try:
+                return f.fn(self, list(args), kwargs)
+            except IndexError:
+                # a model indexed past the arguments it was given
+                self.throw(TypeError, '%s: wrong number of arguments'
+                           % f.name)
         if isinstance(f, ClassVal):
             return self.instantiate(f, args, kwargs)
         if isinstance(f, BuiltinType):
